@@ -87,11 +87,29 @@ type c20Out struct {
 }
 
 func (o c20Out) key() string {
-	return reAddr.ReplaceAllString(strings.Join(o.Outs, "\x00")+"\x01"+o.Stdout+"\x01"+o.Panic, "0x#")
+	return maskAddrs(strings.Join(o.Outs, "\x00") + "\x01" + o.Stdout + "\x01" + o.Panic)
 }
 
 // pointer printing is exempted by the property: addresses are masked before comparing
 var reAddr = regexp.MustCompile(`0x[0-9a-fA-F]{6,}`)
+var reByteDump = regexp.MustCompile(`\[\]byte\{(?:0x[0-9a-f]{2}(?:, )?)+\}`)
+
+// maskAddrs: addresses are masked where they are printed as text and where that text was dumped byte by byte
+// (an encoded pointer: (json (& x)) is the pointer's printed form as bytes)
+func maskAddrs(s string) string {
+	s = reByteDump.ReplaceAllStringFunc(s, func(d string) string {
+		var b []byte
+		for _, h := range regexp.MustCompile(`0x([0-9a-f]{2})`).FindAllStringSubmatch(d, -1) {
+			v, _ := strconv.ParseUint(h[1], 16, 8)
+			b = append(b, byte(v))
+		}
+		if reAddr.Match(b) {
+			return "[]byte(" + reAddr.ReplaceAllString(string(b), "0x#") + ")"
+		}
+		return d
+	})
+	return reAddr.ReplaceAllString(s, "0x#")
+}
 
 // readOnlyPolicy: scripts may read files under the scratch copy of the repository; nothing else.
 func readOnlyPolicy(root string) func(op string, args []string) bool {
@@ -327,7 +345,7 @@ func histLen(h [][]histStep, i int) int {
 }
 
 func showOut(o c20Out) string {
-	return reAddr.ReplaceAllString(fmt.Sprintf("values=%q stdout=%q %s", o.Outs, trunc(o.Stdout, 200), o.Panic), "0x#")
+	return maskAddrs(fmt.Sprintf("values=%q stdout=%q %s", o.Outs, trunc(o.Stdout, 200), o.Panic))
 }
 
 func siteName(n string) string {
@@ -400,6 +418,7 @@ var targetedC20 = []struct {
 	// what one run registers in the process-wide type registry (declared structs, the slice and pointer types derived
 	// from them) must not show in the next run of the same program
 	{"typelist-after-declarations", false, []string{"(def tn (len (typelist)))", "(struct Tl1 [(field p: (* Tl1)) (field q: ([]Tl1))])", "(def tv (Tl1))", "(str [tn (len (typelist))])"}},
+	{"struct-named-like-a-builtin-type", false, []string{"(struct Zb9 [(field n: int64) (field s: string)])", "(str (Zb9 n: 1 s: \"x\"))", "(type? 1)", "(type? \"s\")", "(struct int64 [(field a: string)])", "(struct string)"}},
 	{"names-after-declarations", false, []string{"(def before (defined? \"Nm1\"))", "(struct Nm1 [(field p: (* Nm1)) (field q: ([]int64))])", "(def nv (Nm1 q: [1 2]))", "(str [before (symnum (quote freshlyInterned)) (< (quote int64) (quote zzfresh))])"}},
 	{"struct-decl", false, []string{"(struct Car [(field Id: int64 e:0) (field Name: string e:1)])", "(def c (Car Id: 1 Name: \"x\"))", "(str c)", "(json c)", "(str (unjson (json c)))"}},
 	{"defmap-record", false, []string{"(defmap ranch)", "(def r (ranch a:1 b:2 c:3 d:4 e:5 f:6 g:7 h:8 i:9))", "(str r)", "(json r)", "(str (unjson (json r)))"}},
@@ -539,8 +558,10 @@ func genC20Others(r *kernel.RNG, tier string, i int) interface{} {
 					skip = true
 				}
 			}
-			// (typelist prints the process-wide registry; it has its own targeted programs with stable names)
-			for _, ex := range []string{"gensym", "now", "random", "timeit", "millis", "sleep", "_closdump", "_ls", "dump", "pretty", "typelist"} {
+			// (typelist prints the process-wide registry; it has its own targeted programs with stable names.
+			// registerDemoFunctions registers Go-backed types with the process, as a host program does before it creates
+			// interpreters: later interpreters bind them, by design)
+			for _, ex := range []string{"gensym", "now", "random", "timeit", "millis", "sleep", "_closdump", "_ls", "dump", "pretty", "typelist", "registerDemoFunctions"} {
 				if strings.Contains(t, ex) {
 					skip = true
 				}
